@@ -1,18 +1,20 @@
 /-
 C02, per run: the model treats "scan the ready list for the least-loaded channel, then increment its
-stream count" as one atomic step of a pick.  That is what the picker's mutex provides, as long as it
-is taken *exclusively* around the scan.  This obligation is re-checked on every run against the
-access table extracted from the current sources (tools/extract): every read of a stream counter by
-the scan happens with `picker.mu` certainly held in write mode.
+stream count" as one atomic step of a pick — also with respect to picks on other (superseded) pickers,
+because the counters belong to the balancer's channels, not to a picker.  That is what the balancer's
+pick mutex `gb.pickMu` provides (F31; a mutex per picker, as before F31, serialises only the picks on one
+picker), as long as it is taken *exclusively* around the scan.  This obligation is re-checked on every
+run against the access table extracted from the current sources (tools/extract): every read of a stream
+counter by the scan happens with `gb.pickMu` certainly held in write mode.
 -/
 import GcpVerif.Model.Sync
 import GcpVerif.Generated.Accesses
 namespace GcpVerif.Sync
 
 def scanExclusive (accs : List Access) : Bool :=
-  accs.all fun a => !(a.field == "streamsCnt" && !a.write) || a.w.contains "picker.mu"
+  accs.all fun a => !(a.field == "streamsCnt" && !a.write) || a.w.contains "gb.pickMu"
 
-/-- **C02 (per run)** the least-loaded scan runs under the exclusively held picker mutex -/
+/-- **C02 (per run)** the least-loaded scan runs under the exclusively held balancer-wide pick mutex -/
 theorem c02_scan_exclusive : scanExclusive GcpVerif.Generated.accesses = true := by decide +kernel
 
 /-- non-vacuity: the table does contain such reads -/
